@@ -40,6 +40,11 @@ func (u *UnitBytes) DecodeMapstructure(value interface{}) error {
 	switch v := value.(type) {
 	case int:
 		*u = UnitBytes(v)
+	case int64:
+		*u = UnitBytes(v)
+	case float64:
+		// the schema admits a number: `mem_limit: 1.5e9` is a number of bytes too
+		*u = UnitBytes(v)
 	case string:
 		// a plain (possibly negative) number of bytes, as written by MarshalYAML / MarshalJSON: -1 is "unlimited"
 		if n, err := strconv.ParseInt(v, 10, 64); err == nil {
